@@ -1320,7 +1320,8 @@ static int cfg_parse_internal(cfg_t *cfg, int level, int force_state, cfg_opt_t 
 				goto error;
 			}
 
-			if (opt && is_set(CFGF_DEPRECATED, opt->flags))
+			/* not when the "input" was the option's own default value */
+			if (opt && !force_opt && is_set(CFGF_DEPRECATED, opt->flags))
 				cfg_handle_deprecated(cfg, opt);
 
 			if (comment)
